@@ -893,3 +893,19 @@ Example C14_writers_are_source_inhabited :
   bytes_of_items (map snd (fst (gwriteDescriptorsWithLength [ex_desc_user; ex_desc_stream_id]))) =
     [240; 8; 200; 3; 1; 2; 3; 82; 1; 7].
 Proof. vm_compute. repeat split. Qed.
+
+(* the two length functions calc_descriptor_length still took from the hand model are regenerated too (Gen/RestGen.v,
+   go/gen/restgen.go): calcDescriptorExtensionLength IS calc_extension_length; calcDescriptorUserDefinedLength IS
+   calc_user_defined_length (the `d == nil` test of the source is a companion boolean of the regenerated function — a list
+   does not tell a nil slice from an empty one — and Go guarantees a nil slice has length 0). *)
+Require Import Gen.RestGen Proofs.RestGenDesc.
+Theorem C14_leftover_lengths_are_source :
+  (forall d, calcDescriptorExtensionLength d = calc_extension_length d) /\
+  (forall d d_nil, (d_nil = true -> d = []) -> calcDescriptorUserDefinedLength d d_nil = calc_user_defined_length d).
+Proof. exact (conj extension_length_is_generated user_defined_length_is_generated). Qed.
+Print Assumptions C14_leftover_lengths_are_source.
+Example C14_leftover_lengths_are_source_inhabited :
+  calcDescriptorExtensionLength (Some {| DescriptorExtension_SupplementaryAudio := None; DescriptorExtension_Tag := 1;
+                                         DescriptorExtension_Unknown := Some [1; 2; 3] |}) = 4 /\
+  calcDescriptorUserDefinedLength [1; 2] false = 2 /\ calcDescriptorUserDefinedLength [] true = 0.
+Proof. exact extension_length_example. Qed.
